@@ -290,6 +290,7 @@ type session struct {
 	lines   []string
 	appHash map[int64]string
 	results map[int64][]string // per height: responses to begin/deliver*/end of the decided block
+	ordered map[int64][]string // the same with events and validator updates in emission order
 	dead    bool               // crashed during final delivery (stays down)
 	failMsg []string
 	panics  []string
@@ -382,7 +383,8 @@ func (s *session) exec(d *driver, o op, height int64) {
 		p := guard(func() {
 			resp = r.mux.BeginBlock(types.RequestBeginBlock{Hash: b.hash, Header: b.header(w), LastCommitInfo: b.lc, ByzantineValidators: b.ev})
 		})
-		ans, _ := digBegin(resp)
+		ans, od := digBegin(resp)
+		s.ordered[height] = append(s.ordered[height], od)
 		if p != "" {
 			ans = "PANIC"
 			s.panics = append(s.panics, o.kind+": "+p)
@@ -393,7 +395,8 @@ func (s *session) exec(d *driver, o op, height int64) {
 	case "deliver":
 		var resp types.ResponseDeliverTx
 		p := guard(func() { resp = r.mux.DeliverTx(types.RequestDeliverTx{Tx: o.tx}) })
-		ans, _ := digDeliver(resp)
+		ans, od := digDeliver(resp)
+		s.ordered[height] = append(s.ordered[height], od)
 		if p != "" {
 			ans = "PANIC"
 			s.panics = append(s.panics, o.kind+": "+p)
@@ -404,7 +407,8 @@ func (s *session) exec(d *driver, o op, height int64) {
 	case "end":
 		var resp types.ResponseEndBlock
 		p := guard(func() { resp = r.mux.EndBlock(types.RequestEndBlock{Height: height}) })
-		ans, _ := digEnd(resp)
+		ans, od := digEnd(resp)
+		s.ordered[height] = append(s.ordered[height], od)
 		if p != "" {
 			ans = "PANIC"
 			s.panics = append(s.panics, o.kind+": "+p)
@@ -551,7 +555,7 @@ func (d *driver) runHistory(seed uint64, heights int, rep int) *histOut {
 			d.fail(out, "spec", "initchain-differs", fmt.Sprintf("replica %s InitChain app hash %s (panic %q), oracle %s", r.name, rr, p, root0), nil)
 			return out
 		}
-		s := &session{r: r, appHash: map[int64]string{}, results: map[int64][]string{}}
+		s := &session{r: r, appHash: map[int64]string{}, results: map[int64][]string{}, ordered: map[int64][]string{}}
 		s.lines = append(s.lines, fmt.Sprintf("new %d %s", i, root0))
 		sess = append(sess, s)
 	}
@@ -823,6 +827,7 @@ func (d *driver) runHistory(seed uint64, heights int, rep int) *histOut {
 				}
 				if o.kind == "begin" {
 					s.results[h] = nil
+					s.ordered[h] = nil
 				}
 				s.exec(d, o, h)
 				res.Ops++
@@ -872,7 +877,7 @@ func (d *driver) runHistory(seed uint64, heights int, rep int) *histOut {
 		}
 
 		// oracle: plain replay of the decided block
-		os := &session{r: oracle, appHash: map[int64]string{}, results: map[int64][]string{}}
+		os := &session{r: oracle, appHash: map[int64]string{}, results: map[int64][]string{}, ordered: map[int64][]string{}}
 		os.exec(d, op{kind: "begin", blk: decided.full}, h)
 		for _, t := range decided.full.txs {
 			if os.dead {
@@ -886,7 +891,8 @@ func (d *driver) runHistory(seed uint64, heights int, rep int) *histOut {
 				os.dead = true
 				os.results[h] = append(os.results[h], "PANIC")
 			} else {
-				e, _ := digEnd(endResp)
+				e, od := digEnd(endResp)
+				os.ordered[h] = append(os.ordered[h], od)
 				os.results[h] = append(os.results[h], e)
 			}
 		}
@@ -910,6 +916,29 @@ func (d *driver) runHistory(seed uint64, heights int, rep int) *histOut {
 			}
 			if s.appHash[h] != os.appHash[h] {
 				d.fail(out, "spec", "apphash-differs", fmt.Sprintf("height %d: replica %s AppHash %s, plain replay %s", h, s.r.name, s.appHash[h], os.appHash[h]), hcase())
+			}
+			if equalStrs(s.ordered[h], os.ordered[h]) {
+				res.Count("info:emission-order-same")
+			} else {
+				res.Count("info:emission-order-differs")
+				for i := range s.ordered[h] {
+					if i < len(os.ordered[h]) && s.ordered[h][i] != os.ordered[h][i] {
+						switch {
+						case i == 0:
+							res.Count("info:emission-order-differs:begin-block-events")
+						case i == len(s.ordered[h])-1 && strings.Contains(s.ordered[h][i], "|"):
+							a, b := strings.SplitN(s.ordered[h][i], "|", 2), strings.SplitN(os.ordered[h][i], "|", 2)
+							if a[0] != b[0] {
+								res.Count("info:emission-order-differs:end-block-events")
+							}
+							if a[1] != b[1] {
+								res.Count("info:emission-order-differs:validator-updates")
+							}
+						default:
+							res.Count("info:emission-order-differs:deliver-tx-events")
+						}
+					}
+				}
 			}
 			res.Count("spec:height-compared")
 		}
